@@ -26,7 +26,7 @@ FILTER_MENU = [
 
 def make_objs():
     return [0, 1, True, 1.0, None, (), tuple([1]), tuple([1]), 2, 2.0,
-            ''.join(['a', 'b']), ''.join(['a', 'b'])]
+            ''.join(['a', 'b']), ''.join(['a', 'b']), float('nan')]
 
 
 def classes(objs):
@@ -171,7 +171,10 @@ def execute(stim):
 
     rt.run_circuit(build, script)
     strip = lambda lst: [{'dest': e['dest'], 'etype': e['etype'], 'filters': e['filters']} for e in lst]
-    hdr = {'kind': 'c' if stim['kind'] == 'c' else 's', 'cls': list(range(1, len(cls) + 1)),
+    # values are named by the class id of their first equal object; NaN (never equal, not even
+    # to itself) has equality class 0
+    eq = [0 if objs[i] != objs[i] else i + 1 for i in range(len(cls))]
+    hdr = {'kind': 'c' if stim['kind'] == 'c' else 's', 'cls': eq,
            'on_output': strip(stim['on_output']), 'on_every': strip(stim['on_every'])}
     return {'hdr': hdr, 'ev': log}
 
